@@ -272,6 +272,43 @@ fn moved_component(a: &Fp, b: &Fp) -> &'static str {
     "unknown"
 }
 
+/// First differing position of two Debug renderings: the enclosing `Bundle`-level struct field
+/// path (e.g. `ironwood.bsk`) and a short excerpt.
+fn debug_diff_field(a: &str, b: &str) -> (String, String) {
+    let i = a.bytes().zip(b.bytes()).position(|(x, y)| x != y).unwrap_or(a.len().min(b.len()));
+    let head = &a[..i.min(a.len())];
+    // last `ident: ` before the difference
+    let mut field = String::from("?");
+    let bytes = head.as_bytes();
+    let mut end = head.len();
+    while let Some(p) = head[..end].rfind(": ") {
+        let mut st = p;
+        while st > 0 && (bytes[st - 1].is_ascii_alphanumeric() || bytes[st - 1] == b'_') {
+            st -= 1;
+        }
+        if st < p && !bytes[st].is_ascii_digit() {
+            field = head[st..p].to_string();
+            break;
+        }
+        end = p;
+    }
+    // which top-level part of the Pczt
+    let mut top = "";
+    let mut best = 0;
+    for t in ["global", "transparent", "sapling", "orchard", "ironwood"] {
+        if let Some(p) = head.rfind(&format!(" {t}: ")).or_else(|| head.rfind(&format!("{{ {t}: "))) {
+            if p >= best {
+                best = p;
+                top = t;
+            }
+        }
+    }
+    let lo = i.saturating_sub(40);
+    let hi = (i + 40).min(a.len());
+    let excerpt = a.get(lo..hi).unwrap_or("").to_string();
+    (if top.is_empty() || top == field { field } else { format!("{top}.{field}") }, excerpt)
+}
+
 fn enc_version(bytes: &[u8]) -> u32 {
     u32::from_le_bytes(bytes[4..8].try_into().unwrap())
 }
@@ -404,8 +441,17 @@ fn check_roundtrip(c: &mut Ctx, p: &Pczt, stage: &str, made: &Made) {
             );
             continue;
         }
-        if format!("{q:?}") != dbg {
-            viol(c, &format!("roundtrip:debug-rendering-differs:{name}"), format!("at {stage}"), stage_json(stage, made));
+        let dq = format!("{q:?}");
+        if dq != dbg {
+            // the value tree is produced by the v2 encoder on both sides and cannot see what that
+            // encoder drops; the Debug rendering can. Name the first field that differs.
+            let (field, ctx) = debug_diff_field(&dbg, &dq);
+            viol(
+                c,
+                &format!("roundtrip:debug-rendering-differs:{name}:{field}"),
+                format!("parse(serialize(p)) [{name} encoding] renders differently at {stage}: before `{ctx}`"),
+                stage_json(stage, made),
+            );
         }
         if name == "default" {
             match q.serialize() {
@@ -1536,6 +1582,283 @@ fn memo_compaction(c: &mut Ctx, p: &Pczt, stage: &str, txid0: &Result<TxId, Stri
     }
 }
 
+
+// ---------------------------------------------------------------------------------------------
+// bundles that are empty except for ONE field (hand-made through the value tree)
+// ---------------------------------------------------------------------------------------------
+
+/// For every field of an otherwise canonically empty Sapling / Orchard / Ironwood bundle: set just
+/// that field and require (a) round-trip equality in every encoding that can carry it, (b) byte
+/// stability of v1 -> v2 -> v1 and v2 -> v1 -> v2 where both can, (c) the same "has effects"
+/// verdict and txid before and after a serialise/parse cycle.
+fn empty_bundle_field_probes(c: &mut Ctx) {
+    use zcash_protocol::consensus::BranchId;
+    // templates: a Creator PCZT whose bundles are present in the tree (non-default anchors)
+    let tmpl = |branch: BranchId| -> Option<V> {
+        let mut cr = Creator::new(branch.into(), 1_000_000, 133, Some([7; 32]), Some([9; 32])).ok()?;
+        if branch == BranchId::Nu6_3 {
+            cr = cr.with_ironwood_anchor([5; 32]).ok()?;
+        }
+        tree(&cr.build().ok()?).ok()
+    };
+    let (Some(t6), Some(t5)) = (tmpl(BranchId::Nu6_3), tmpl(BranchId::Nu6)) else { return };
+    let iw_bundle = get(&t6, "ironwood").cloned();
+    let bytes32 = |b: u8| V::Array((0..32).map(|_| uint(b as u64)).collect());
+    let mut made = make_dummy(c);
+    for (vname, base) in [("v5", &t5), ("v6", &t6)] {
+        for pool in ["sapling", "orchard", "ironwood"] {
+            // (field, value)
+            let mut fields: Vec<(&str, V)> = vec![
+                ("bsk", bytes32(9)),
+                ("anchor", bytes32(7)),
+                ("value_sum", if pool == "sapling" { uint(5) } else { V::Array(vec![uint(5), V::Bool(false)]) }),
+            ];
+            if pool != "sapling" {
+                fields.push(("flags", uint(1)));
+                fields.push(("note_version", V::Text(if pool == "orchard" { "V3" } else { "V2" }.into())));
+                fields.push(("zkproof", V::Array(vec![uint(1), uint(2), uint(3)])));
+            }
+            // two-field shapes around the placeholder anchor
+            fields.push(("bsk+zero-anchor", bytes32(9)));
+            for (field, val) in fields {
+                let mut t = base.clone();
+                // start from the canonical empty bundle with every field at its default
+                let Some(slot) = get_mut(&mut t, pool) else { continue };
+                if matches!(slot, V::Null) {
+                    match &iw_bundle {
+                        Some(b) if pool == "ironwood" => *slot = b.clone(),
+                        _ => continue,
+                    }
+                }
+                let Some(a) = get_mut(slot, "anchor") else { continue };
+                *a = V::Null;
+                let key = field.split('+').next().unwrap();
+                match get_mut(slot, key) {
+                    Some(f) => *f = val.clone(),
+                    None => continue,
+                }
+                if field.ends_with("zero-anchor") {
+                    if let Some(a) = get_mut(slot, "anchor") {
+                        *a = bytes32(0);
+                    }
+                }
+                let Ok(p) = from_tree(&t) else {
+                    c.r.count(&format!("empty_bundle_probe_unbuildable:{vname}:{pool}.{field}"), 1);
+                    continue;
+                };
+                // the probe really carries the field (the decoder does not elide)
+                let part = match pool {
+                    "sapling" => format!("{:?}", p.sapling()),
+                    "orchard" => format!("{:?}", p.orchard()),
+                    _ => format!("{:?}", p.ironwood()),
+                };
+                if key == "bsk" && !part.contains("bsk: Some(") {
+                    c.r.count("empty_bundle_probe_not_carrying_field", 1);
+                    continue;
+                }
+                c.r.count("empty_bundle_field_probes", 1);
+                c.r.count(&format!("empty_bundle_probe:{pool}.{key}"), 1);
+                made.p = p.clone();
+                let stage = format!("probe:{vname}:empty-{pool}-bundle-with:{field}");
+                check_roundtrip(c, &p, &stage, &made);
+                // (an all-zero anchor on an action-less bundle is read back as absent: that known
+                // defect is reported by check_roundtrip under its own signature and would only
+                // reappear here as a byte difference)
+                if !field.ends_with("zero-anchor") {
+                    cross_version_stability(c, &p, &format!("{pool}.{field}"), &stage, &made);
+                }
+                // effects verdict / txid across a serialise-parse cycle
+                if let Ok(b) = p.clone().serialize() {
+                    if let Ok(q) = Pczt::parse(&b) {
+                        let (e0, e1) = (txid_of(&p), txid_of(&q));
+                        match (&e0, &e1) {
+                            (Ok(x), Ok(y)) if x == y => c.r.count("probe_effects_verdict_stable", 1),
+                            (Err(_), Err(_)) => c.r.count("probe_effects_verdict_stable", 1),
+                            _ => viol(
+                                c,
+                                &format!("roundtrip:effects-verdict-changes:{pool}.{key}"),
+                                format!("into_effects before: {e0:?}, after parse(serialize(p)): {e1:?} at {stage}"),
+                                stage_json(&stage, &made),
+                            ),
+                        }
+                    }
+                }
+            }
+        }
+    }
+}
+
+/// v1 bytes -> parse -> v2 bytes -> parse -> v1 bytes must reproduce the v1 bytes (and the same the
+/// other way round), whenever both encodings accept the value.
+fn cross_version_stability(c: &mut Ctx, p: &Pczt, what: &str, stage: &str, made: &Made) {
+    let v1 = |x: &Pczt| pczt::v1::Pczt::try_from(x.clone()).ok().map(|e| e.serialize());
+    let v2 = |x: &Pczt| pczt::v2::Pczt::try_from(x.clone()).ok().map(|e| e.serialize());
+    if let Some(b1) = v1(p) {
+        let back = Pczt::parse(&b1).ok().and_then(|q| v2(&q)).and_then(|b2| Pczt::parse(&b2).ok()).and_then(|r| v1(&r));
+        match back {
+            Some(b) if b == b1 => c.r.count("v1_v2_v1_bytes_stable", 1),
+            Some(_) => viol(
+                c,
+                &format!("roundtrip:v1-v2-v1-bytes-differ:{what}"),
+                format!("v1 bytes -> v2 -> v1 does not reproduce the v1 bytes at {stage}"),
+                stage_json(stage, made),
+            ),
+            None => viol(c, &format!("roundtrip:v1-v2-v1-breaks:{what}"), format!("a step of v1 -> v2 -> v1 failed at {stage}"), stage_json(stage, made)),
+        }
+    }
+    if let Some(b2) = v2(p) {
+        if let Some(q) = Pczt::parse(&b2).ok() {
+            if let Some(b1) = v1(&q) {
+                let back = Pczt::parse(&b1).ok().and_then(|r| v2(&r));
+                match back {
+                    Some(b) if b == b2 => c.r.count("v2_v1_v2_bytes_stable", 1),
+                    Some(_) => viol(
+                        c,
+                        &format!("roundtrip:v2-v1-v2-bytes-differ:{what}"),
+                        format!("v2 bytes -> v1 -> v2 does not reproduce the v2 bytes at {stage}"),
+                        stage_json(stage, made),
+                    ),
+                    None => {}
+                }
+            }
+        }
+    }
+}
+
+// ---------------------------------------------------------------------------------------------
+// copies of different length: a Constructor that is still adding vs a copy that is locked
+// ---------------------------------------------------------------------------------------------
+
+/// The longer copy L = the shorter copy S plus one more input / output / spend / action, as a
+/// Constructor that is still adding would produce; each copy's modifiable flag set or cleared
+/// (only an external Constructor uses these flags: injected through the value tree). Rule
+/// (documented on `Global::tx_modifiable` and in the bundle merges): a copy may only be extended
+/// if ITS flag says it is modifiable. So the verdict must be `Ok` iff the shorter copy is
+/// modifiable — in both orders and every grouping — and all accepted results must be equal.
+fn growth_pairs(c: &mut Ctx, p0: &Pczt, rng: &mut ChaCha20Rng, made: &Made) {
+    let Ok(t0) = tree(p0) else { return };
+    // (label, path to list, flag bit)
+    let all: [(&'static str, [tree::Step<'static>; 2], u64); 6] = [
+        ("transparent.inputs", [K("transparent"), K("inputs")], 0x01),
+        ("transparent.outputs", [K("transparent"), K("outputs")], 0x02),
+        ("sapling.spends", [K("sapling"), K("spends")], 0x80),
+        ("sapling.outputs", [K("sapling"), K("outputs")], 0x80),
+        ("orchard.actions", [K("orchard"), K("actions")], 0x80),
+        ("ironwood.actions", [K("ironwood"), K("actions")], 0x80),
+    ];
+    // no bsk anywhere (IO finalisation not run yet)
+    let dbg = format!("{p0:?}");
+    if dbg.contains("bsk: Some(") {
+        return;
+    }
+    let Some(m0) = at(&t0, &[K("global"), K("tx_modifiable")]).and_then(as_u64) else { return };
+    let mut eligible: Vec<&(&'static str, [tree::Step<'static>; 2], u64)> =
+        all.iter().filter(|(_, path, _)| at(&t0, path).map(arr_len).unwrap_or(0) >= 1).collect();
+    eligible.shuffle(rng);
+    // Ironwood and Orchard first when present (rarest), then one more
+    eligible.sort_by_key(|e| !(e.0.starts_with("ironwood") || e.0.starts_with("orchard")));
+    for (label, path, bit) in eligible.into_iter().take(2) {
+        let mk = |shorter: bool, modifiable: bool| -> Option<Pczt> {
+            let mut t = t0.clone();
+            if shorter {
+                match at_mut(&mut t, path) {
+                    Some(V::Array(a)) => {
+                        a.pop();
+                    }
+                    _ => return None,
+                }
+            }
+            let flags = if modifiable { m0 | bit } else { m0 & !bit };
+            *at_mut(&mut t, &[K("global"), K("tx_modifiable")])? = uint(flags);
+            from_tree(&t).ok()
+        };
+        for (s_mod, l_mod) in [(false, true), (true, false), (true, true), (false, false)] {
+            let (Some(s), Some(l)) = (mk(true, s_mod), mk(false, l_mod)) else { continue };
+            let expect_ok = s_mod;
+            let tag = format!("{}-shorter+{}-longer", if s_mod { "modifiable" } else { "locked" }, if l_mod { "modifiable" } else { "locked" });
+            c.r.count("growth_pairs", 1);
+            c.r.count(&format!("growth_pair:{label}"), 1);
+            let mut copies = vec![l.clone(), s.clone()];
+            if rng.gen_bool(0.35) {
+                copies.push(if rng.gen_bool(0.5) { s.clone() } else { l.clone() });
+            }
+            let n_long = at(&t0, path).map(arr_len).unwrap_or(0);
+            let mut verdicts: Vec<(String, bool)> = vec![];
+            let mut ok_trees: Vec<(String, V)> = vec![];
+            for perm in permutations(copies.len()) {
+                let mut results = bracketings(&copies, &perm);
+                if let Ok(r) = guard(|| Combiner::new(perm.iter().map(|i| copies[*i].clone()).collect()).combine()) {
+                    results.push((format!("flat{perm:?}"), r.map_err(|_| ())));
+                }
+                for (desc, res) in results {
+                    c.r.count("growth_verdicts", 1);
+                    match res {
+                        Ok(r) => {
+                            verdicts.push((desc.clone(), true));
+                            if let Ok(tr) = tree(&r) {
+                                ok_trees.push((desc, tr));
+                            }
+                        }
+                        Err(()) => verdicts.push((desc, false)),
+                    }
+                }
+            }
+            let replay = json!({"experiment": "growth", "list": label, "flags": tag, "copy0": "longer", "copy1": "shorter", "request": made.req.to_json()});
+            let oks: Vec<&String> = verdicts.iter().filter(|v| v.1).map(|v| &v.0).collect();
+            let errs: Vec<&String> = verdicts.iter().filter(|v| !v.1).map(|v| &v.0).collect();
+            if !oks.is_empty() && !errs.is_empty() {
+                viol(
+                    c,
+                    &format!("combine:growth:{label}:verdict-depends-on-order:{tag}"),
+                    format!("copies 0 = longer ({n_long} items), 1 = shorter ({} items): accepted as {:?}, refused as {:?}", n_long - 1, &oks[..oks.len().min(3)], &errs[..errs.len().min(3)]),
+                    replay.clone(),
+                );
+            }
+            if !expect_ok && !oks.is_empty() {
+                viol(
+                    c,
+                    &format!("combine:growth:{label}:locked-copy-extended"),
+                    format!("{tag}: {:?} succeeded: a copy whose flags forbid changes was extended by one item", &oks[..oks.len().min(3)]),
+                    replay.clone(),
+                );
+            }
+            if expect_ok && !errs.is_empty() && oks.is_empty() {
+                viol(
+                    c,
+                    &format!("combine:growth:{label}:modifiable-copy-not-extended"),
+                    format!("{tag}: every order refused although the shorter copy is modifiable"),
+                    replay.clone(),
+                );
+            }
+            // accepted results: all equal, as long as the longer copy, flags merged towards locked
+            if let Some((d0, first)) = ok_trees.first() {
+                for (d, t) in &ok_trees[1..] {
+                    if !same(first, t) {
+                        let mut df = vec![];
+                        diff(first, t, "", &mut df, 3);
+                        viol(
+                            c,
+                            &format!("combine:growth:{label}:result-depends-on-order"),
+                            format!("{tag}: {d0} and {d} give different values: {df:?}"),
+                            replay.clone(),
+                        );
+                        break;
+                    }
+                }
+                if at(first, path).map(arr_len).unwrap_or(0) != n_long {
+                    viol(c, &format!("combine:growth:{label}:items-lost"), format!("{tag}: result of {d0} is shorter than the longer copy"), replay.clone());
+                }
+                c.r.count("growth_results_compared", ok_trees.len() as u64);
+            }
+            if expect_ok {
+                c.r.count("growth_expected_ok", 1);
+            } else {
+                c.r.count("growth_expected_refusal", 1);
+            }
+        }
+    }
+}
+
 // ---------------------------------------------------------------------------------------------
 // one case
 // ---------------------------------------------------------------------------------------------
@@ -1641,6 +1964,7 @@ fn run_case(c: &mut Ctx, rng: &mut ChaCha20Rng, made: Made, real: bool, ops: &[R
         c.r.count("no_effects_at_creation", 1);
     }
     observe(c, "creator", &p0, &txid0, &made);
+    growth_pairs(c, &p0, rng, &made);
 
     // Stage A: Updater essentials and IoFinalizer, in either order
     let upd_first = rng.gen_bool(0.5);
@@ -2223,6 +2547,9 @@ fn main() {
     if args.shard == 0 {
         creator_probes(&mut c);
         v5_with_v2_only_content(&mut c);
+    }
+    if args.shard == 1 % args.nshards {
+        empty_bundle_field_probes(&mut c);
     }
     let mut n = 0;
     while n < max_cases && c.r.frac_left() > real_share {
